@@ -12,7 +12,7 @@
            enc/dec pair, checksum is Adler-32) and a symbolic one used to
            evaluate long API sequences cheaply. *)
 From Coq Require Import List NArith Bool Arith.
-Require Import BobV.C10.Fs.
+Require Import BobV.Gen.ConstsC10 BobV.C10.Fs.
 Import ListNotations.
 Open Scope N_scope.
 
@@ -572,3 +572,163 @@ Section BobSym.
   Definition y_run := run state (option state) api ret init_state y_seal y_verify y_load None (mutate norm).
   Definition y_fs_at_crash := fs_at_crash state (option state) api ret init_state y_seal y_verify y_load None (mutate norm).
 End BobSym.
+
+(* ------------------------------------------------------------------ *)
+(* Part 5: tie to the source constants, and the views compared by the  *)
+(* correspondence check                                                *)
+
+Definition name_path (n : name) : list N :=
+  match n with
+  | NPickle => PATH_PICKLE | NNew => PATH_NEW | NDirty => PATH_DIRTY | NLock => PATH_LOCK
+  end.
+
+Definition name_id (n : name) : N :=
+  match n with NPickle => 0 | NNew => 1 | NDirty => 2 | NLock => 3 end.
+
+(* the model hard-wires: four distinct names, a 4-byte "=L" trailer (le32),
+   Adler start value 1, and that snapshots written now (CUR_VERSION) are
+   inside the accepted version window *)
+Definition model_consts_ok : bool :=
+  negb (bytes_eqb PATH_PICKLE PATH_NEW) && negb (bytes_eqb PATH_PICKLE PATH_DIRTY) &&
+  negb (bytes_eqb PATH_PICKLE PATH_LOCK) && negb (bytes_eqb PATH_NEW PATH_DIRTY) &&
+  negb (bytes_eqb PATH_NEW PATH_LOCK) && negb (bytes_eqb PATH_DIRTY PATH_LOCK) &&
+  (TRAILER_LEN =? 4) && bytes_eqb CSUM_FORMAT [61; 76] && (ADLER_START =? 1) &&
+  (MIN_VERSION <=? CUR_VERSION).
+
+Definition shape := (N * N * N)%type.   (* kind, name, second name / content flag *)
+
+Definition shape_of {C} (good : C -> bool) (o : fsop C) : shape :=
+  match o with
+  | OCreateExcl n _ => (0, name_id n, 0)
+  | OWrite n c => (1, name_id n, if good c then 1 else 0)
+  | OFsync n => (2, name_id n, 0)
+  | ORename a b => (3, name_id a, name_id b)
+  | OUnlink n => (4, name_id n, 0)
+  end.
+
+Inductive oview :=
+| VRefused | VLoadError | VStarted | VFinalized | VRet (r : pret ret) | VNoProc | VAssertFail | VSecond.
+
+Definition view_of (o : outcome state ret) : oview :=
+  match o with
+  | ORefused => VRefused | OLoadError => VLoadError | OStarted _ => VStarted | OFinalized => VFinalized
+  | ORet r => VRet r | ONoProc => VNoProc | OAssertFail => VAssertFail | OSecond => VSecond
+  end.
+
+(* order-insensitive comparison of key lists / path lists (Python sets, dict views) *)
+Fixpoint count_eq {T} (e : T -> T -> bool) (x : T) (l : list T) : nat :=
+  match l with [] => O | y :: r => (if e x y then 1 else 0) + count_eq e x r end.
+
+Definition perm_eqb {T} (e : T -> T -> bool) (a b : list T) : bool :=
+  Nat.eqb (length a) (length b) && forallb (fun x => Nat.eqb (count_eq e x a) (count_eq e x b)) a.
+
+Definition path_eqb (a b : key * N * bool) : bool :=
+  key_eqb (fst (fst a)) (fst (fst b)) && (snd (fst a) =? snd (fst b)) && Bool.eqb (snd a) (snd b).
+
+Definition ret_eqb (a b : ret) : bool :=
+  match a, b with
+  | RUnit, RUnit => true
+  | RVal x, RVal y => pyval_eqb x y
+  | RKeys x, RKeys y => perm_eqb key_eqb x y
+  | RBool x, RBool y => Bool.eqb x y
+  | RPath b1 n1, RPath b2 n2 => key_eqb b1 b2 && (n1 =? n2)
+  | RNoPath, RNoPath => true
+  | RPaths x, RPaths y => perm_eqb path_eqb x y
+  | RKeyError, RKeyError => true
+  | _, _ => false
+  end.
+
+Definition oview_eqb (a b : oview) : bool :=
+  match a, b with
+  | VRefused, VRefused | VLoadError, VLoadError | VStarted, VStarted | VFinalized, VFinalized
+  | VNoProc, VNoProc | VAssertFail, VAssertFail | VSecond, VSecond => true
+  | VRet (PRet x), VRet (PRet y) => ret_eqb x y
+  | VRet PUnit, VRet PUnit => true
+  | VRet PAssert, VRet PAssert => true
+  | _, _ => false
+  end.
+
+Definition shape_eqb (a b : shape) : bool :=
+  (fst (fst a) =? fst (fst b)) && (snd (fst a) =? snd (fst b)) && (snd a =? snd b).
+
+Fixpoint list_eqb {T} (e : T -> T -> bool) (a b : list T) : bool :=
+  match a, b with
+  | [], [] => true
+  | x :: a', y :: b' => e x y && list_eqb e a' b'
+  | _, _ => false
+  end.
+
+Definition step_view := (oview * list shape)%type.
+Definition step_view_eqb (a b : step_view) : bool :=
+  oview_eqb (fst a) (fst b) && list_eqb shape_eqb (snd a) (snd b).
+
+(* test events: a completed command, SIGKILL after k operations (every file
+   keeps its content), power loss after k operations (every unsynced file is
+   found with content that fails the trailer check) *)
+Inductive tev := TCmd (c : cmd api) | TKill (c : cmd api) (k : nat) | TTear (c : cmd api) (k : nat).
+
+Definition norm_of (tab : list (key * key)) (k : key) : key :=
+  match afind k tab with Some k' => k' | None => k end.
+
+Section SymRun.
+  Variable norm : key -> key.
+
+  Definition adv_keep (f : fs (option state)) : adversary (option state) :=
+    fun n => match lookup n f with Some x => f_data x | None => None end.
+
+  Definition to_event (w : yworld) (t : tev) : yevent :=
+    match t with
+    | TCmd c => ECmd c
+    | TKill c k => ECrashDuring c k (adv_keep (y_fs_at_crash norm w c k))
+    | TTear c k => ECrashDuring c k (fun _ => None)
+    end.
+
+  Fixpoint trun (w : yworld) (ts : list tev) : list step_view :=
+    match ts with
+    | [] => []
+    | t :: r =>
+        let e := to_event w t in
+        let ef := y_exec norm w (match t with TCmd c | TKill c _ | TTear c _ => c end) in
+        let ops := match t with TCmd _ => e_ops _ _ _ ef | TKill _ k | TTear _ k => firstn k (e_ops _ _ _ ef) end in
+        (view_of (e_out _ _ _ ef), map (shape_of y_verify) ops) :: trun (fst (y_step norm w e)) r
+    end.
+
+  (* a case: the main history, and side histories that branch off after the
+     first n events of the main one *)
+  Definition run_case (main : list tev) (sides : list (nat * list tev)) : list step_view * list (list step_view) :=
+    (trun y_w0 main,
+     map (fun sd => skipn (fst sd) (trun y_w0 (firstn (fst sd) main ++ snd sd))) sides).
+
+  Definition case_eqb (a b : list step_view * list (list step_view)) : bool :=
+    list_eqb step_view_eqb (fst a) (fst b) && list_eqb (list_eqb step_view_eqb) (snd a) (snd b).
+End SymRun.
+
+(* byte-level start on an image: result kind, fingerprint (length, Adler-32)
+   of the content that was loaded, operations *)
+Definition raw_start_view (tab : list (bytes * bool)) (f : fs bytes) : N * option (N * N) * list shape :=
+  match raw_start tab f with
+  | (SRefused, ops) => (0, None, map (shape_of verify_ok) ops)
+  | (SLoadError, ops) => (1, None, map (shape_of verify_ok) ops)
+  | (SLoaded b, ops) => (2, Some (N.of_nat (length b), adler32 b), map (shape_of verify_ok) ops)
+  end.
+
+(* ------------------------------------------------------------------ *)
+(* Part 6: a toy pickle used only by the non-vacuity examples          *)
+(* (encodes the first result hash; enough to tell the example states apart) *)
+Definition toy_enc (s : state) : bytes :=
+  match s_results s with
+  | [] => [0]
+  | (k, Some (v :: _)) :: _ => 1 :: v :: k
+  | _ => [2]
+  end.
+
+Definition toy_dec (b : bytes) : option state :=
+  match b with
+  | 0 :: _ => Some init_state
+  | 1 :: v :: k => Some (set_results [(firstn (length k - 4) k, Some [v])] init_state)
+  | _ => None
+  end.
+
+Definition toy_norm (k : key) : key := k.
+Definition toy_set (v : N) : cmd api := CProc (PApi (SetResult [97] (Some [v]))).
+Definition toy_state (v : N) : state := set_results [([97], Some [v])] init_state.
